@@ -8,6 +8,8 @@ import (
 	"math/big"
 	"os"
 	"strings"
+
+	sdk "github.com/cosmos/cosmos-sdk/types"
 )
 
 // ------------------------------------------------------------ Coq rendering
@@ -252,6 +254,17 @@ func splits(w *World, op Op, b, a *Snap, mark func(string)) {
 		mark("keeper-liquidation")
 		if len(b.depsOf(c.ID)) > 1 {
 			mark("seize:several-deposits")
+			mark("keeper-liquidation:several-depositors")
+			reward := rewardOf(w, c)
+			n := 0
+			for _, d := range b.depsOf(c.ID) {
+				if reward.Sign() > 0 && d.Amt.Cmp(reward) >= 0 {
+					n++
+				}
+			}
+			if n > 1 {
+				mark("keeper-liquidation:several-deposits-cover-reward")
+			}
 		}
 	case "block":
 		seized := 0
@@ -312,10 +325,14 @@ func splits(w *World, op Op, b, a *Snap, mark func(string)) {
 	}
 }
 
+func rewardOf(w *World, c CdpRow) *big.Int {
+	return sdk.NewDecFromBigInt(c.Coll).Mul(decOf(w.Cfg.Types[c.T].Reward)).RoundInt().BigInt()
+}
+
 var AllSplits = []string{
 	"create", "deposit:owner", "deposit:third-party", "withdraw:whole-deposit", "withdraw:partial", "draw",
 	"repay:over-payment-closes", "repay:exact-closes", "repay:fees-only", "repay:partial-principal", "close:several-depositors",
-	"keeper-liquidation", "seize:several-deposits", "block:one-seized", "block:several-seized", "block:interest-accumulated",
+	"keeper-liquidation", "keeper-liquidation:several-depositors", "keeper-liquidation:several-deposits-cover-reward", "seize:several-deposits", "block:one-seized", "block:several-seized", "block:interest-accumulated",
 	"block:accrual-time-kept", "block:risky-cdps-synchronised", "block:off-interval", "block:debt-auction", "block:surplus-auction",
 	"block:feed-down", "block:feed-up",
 }
